@@ -240,12 +240,18 @@ def number_spellings(rng, n):
         out.append((us(m.split(".")[0], 3) + "." + "_".join([m.split(".")[1][:8], m.split(".")[1][8:]]) + f"e{e}", float(f"{m}e{e}")))
         digs = m.replace(".", "")
         out.append((f"{digs}e{int(e) - 17}", float(f"{digs}e{int(e) - 17}")))
+        # several underscores inside one digit run, in the integer part, the fraction and the exponent
+        frac = m.split(".")[1]
+        out.append((us(digs[:9], 2) + "." + us(frac[:9], 1) + f"e{e}".replace("e", "e") , float(f"{digs[:9]}.{frac[:9]}e{e}")))
+        out.append((us(digs[:7], 1) + "e" + ("-" if int(e) < 0 else "") + us(str(abs(int(e))), 1), float(f"{digs[:7]}e{e}")))
+        out.append((us(str(abs(int(v)) if abs(v) < 1e18 else 12345678), 2) + ".5_0_0", float(str(abs(int(v)) if abs(v) < 1e18 else 12345678) + ".5")))
         if 1e-5 < abs(v) < 1e15:
             out.append((f"{v:.20f}", float(f"{v:.20f}")))
     # spellings whose Python value overflows / underflows
     out += [("1e309", math.inf), ("1e999", math.inf), ("9e308", math.inf), ("1.8e308", math.inf), ("17_9.8e306", math.inf),
             ("1e-400", 0.0), ("1e-324", 0.0), ("0.0e999", 0.0), ("00.5", 0.5), ("09.5", 9.5), ("1_0.0_1e1_0", 10.01e10),
-            ("0e0", 0.0), ("1E+2", 100.0), ("1e-0_1", 0.1)]
+            ("0e0", 0.0), ("1E+2", 100.0), ("1e-0_1", 0.1),
+            ("1_000_000.5", 1000000.5), ("1.000_000_1", 1.0000001), ("1e1_0_0", 1e100), ("1_2_3e2", 12300.0), ("1_2_3.4_5_6e-1_0", 123.456e-10)]
     seen, res = set(), []
     for s, v in out:
         if s not in seen:
